@@ -381,6 +381,16 @@ fn pruned_redelivery(h: &History, rep: &mut Report, restart_first: bool) {
         }
     }
     rep.evaluations += 1;
+    {
+        // nothing below the horizon may come back: neither into the block store nor onto the disk
+        // (a file that returns is never purged again and is the first thing the next start loads)
+        let o2 = n.obs();
+        let back: Vec<String> = o2.blocks.iter().filter(|b| !o.blocks.iter().any(|x| x.0 == b.0)).map(|b| format!("block id {}", b.1)).chain(o2.files.iter().filter(|f| !o.files.contains(f)).map(|f| format!("file {}", f.0))).collect();
+        if !back.is_empty() {
+            rep.violate("pruned-redelivery/stored-again", format!("after blocks below the purge horizon (lowest kept id {}) were delivered again the node holds again: {:?}", lowest_kept, back), case.clone());
+            return;
+        }
+    }
     if n.tip() != before {
         rep.violate("pruned-redelivery/tip-moved", format!("tip {}:{} before, {}:{} after blocks below the purge horizon were delivered again", before.0, hx(&before.1[..6]), n.tip().0, hx(&n.tip().1[..6])), case.clone());
         return;
